@@ -13,7 +13,9 @@
 (*           supplied number (printed precision, see driver) and reports ok; TLC checks *)
 (*           that the token in this position is exactly s                               *)
 (*   t = "x" exactly one value token, content not prescribed (dates, escaped non-ASCII; *)
-(*           ok = harness side condition, e.g. ASCII parts preserved)                   *)
+(*           ok = harness side condition, e.g. ASCII parts preserved; s = the supplied  *)
+(*           string with every non-ASCII character replaced by '?', used only to see    *)
+(*           whether it contains LF + ';')                                              *)
 (*   t = "m" missing value of an optional field: '' or ? or .                           *)
 (*   t = "i" symbolic id: s = <<k>>; cells with equal k must hold equal tokens, cells   *)
 (*           with different k different tokens                                          *)
@@ -62,18 +64,14 @@ PStep(ps, tok) ==
            IF tok.k = "val" THEN [ps EXCEPT !.vals = Append(@, tok.s)]
            ELSE BlockStep(CloseLoop(ps), tok)
 
-BlockTags(b) == FlattenSeq([j \in 1..Len(b.items) |-> [q \in 1..Len(b.items[j].tags) |->
-                                                         LowerSeq(b.items[j].tags[q])]])
+(* Uniqueness of data names within a block / of block names is a semantic rule of CIF,  *)
+(* not part of the syntax; it is not demanded here (calling e.g. with_beamline twice    *)
+(* repeats data names by construction).                                                 *)
 PFinish(ps) ==
-    LET p1 == CASE ps.st = "tagged" -> PErr(ps, "tag_without_value")
-                [] ps.st = "lhead"  -> PErr(ps, "loop_without_tags_or_values")
-                [] ps.st = "lbody"  -> CloseLoop(ps)
-                [] OTHER -> ps
-        dupTag == \E b \in 1..Len(p1.blocks) :
-                     LET tg == BlockTags(p1.blocks[b]) IN Cardinality({tg[i] : i \in 1..Len(tg)}) # Len(tg)
-        dupBlk == Cardinality({LowerSeq(p1.blocks[b].name) : b \in 1..Len(p1.blocks)}) # Len(p1.blocks)
-    IN IF dupTag THEN PErr(p1, "duplicate_tag_in_block")
-       ELSE IF dupBlk THEN PErr(p1, "duplicate_block_name") ELSE p1
+    CASE ps.st = "tagged" -> PErr(ps, "tag_without_value")
+      [] ps.st = "lhead"  -> PErr(ps, "loop_without_tags_or_values")
+      [] ps.st = "lbody"  -> CloseLoop(ps)
+      [] OTHER -> ps
 
 Parse(tokens) == LET p == PFinish(FoldLeft(PStep, P0, tokens)) IN [blocks |-> p.blocks, e |-> p.e]
 
@@ -165,14 +163,15 @@ DocVerdict(exp, rd) ==
 (* an exception is an accepted outcome (DESIGN 3.4)                                     *)
 HasUnrepresentable(exp) ==
     \E b \in 1..Len(exp) : \E j \in 1..Len(exp[b].items) : \E c \in 1..Len(exp[b].items[j].vals) :
-        LET cell == exp[b].items[j].vals[c] IN cell.t = "s" /\ HasLfSemi(cell.s)
+        LET cell == exp[b].items[j].vals[c] IN cell.t \in {"s", "x"} /\ HasLfSemi(cell.s)
 
 -----------------------------------------------------------------------------
 (* Content assembled by the high-level builder (module docstring of io/cif.py):         *)
 (* dictionary-conformance loop, audit pairs (+ the reducer, or a loop of reducers),     *)
 (* contact authors, other authors, author roles, then the added content in call order.  *)
 (* A builder is [name, authors, reducers, content]; a person is                         *)
-(* [name, email, address, orcid, role, corr] with <<>> for "not given".                 *)
+(* [name, email, address, orcid, role, corr]; the fields are cells as supplied by the     *)
+(* caller, MCell for "not given" (None or empty); reducers and beamline strings likewise.*)
 SCell(s) == [t |-> "s", s |-> s, ok |-> TRUE]
 XCell    == [t |-> "x", s |-> <<>>, ok |-> TRUE]
 MCell    == [t |-> "m", s |-> <<>>, ok |-> TRUE]
@@ -188,9 +187,9 @@ B0(name) == [name |-> name, authors |-> <<>>, reducers |-> <<>>, content |-> <<>
 (* columns of one author category: <<tag, cells>> for every field that any author has   *)
 AuthorColumns(people, idx, tagName, tagEmail, tagAddress, tagOrcid, tagId) ==
     LET n == Len(people)
-        col(tag, f(_)) == IF \E i \in 1..n : f(people[i]) # <<>>
-                          THEN << <<tag, [i \in 1..n |-> OptCell(f(people[i]))]>> >> ELSE <<>>
-        idcol == IF \E i \in 1..n : people[i].role # <<>>
+        col(tag, f(_)) == IF \E i \in 1..n : f(people[i]).t # "m"
+                          THEN << <<tag, [i \in 1..n |-> f(people[i])]>> >> ELSE <<>>
+        idcol == IF \E i \in 1..n : people[i].role.t # "m"
                  THEN << <<tagId, [i \in 1..n |-> ICell(idx[i])]>> >> ELSE <<>>
     IN col(tagName, LAMBDA p : p.name) \o col(tagEmail, LAMBDA p : p.email)
        \o col(tagAddress, LAMBDA p : p.address) \o col(tagOrcid, LAMBDA p : p.orcid) \o idcol
@@ -211,22 +210,22 @@ SaveItems(B) ==
         pos(i) == CHOOSE p \in 1..Len(ordered) : ordered[p] = i
         contact == [q \in 1..Len(cIdx) |-> A[cIdx[q]]]
         regular == [q \in 1..Len(rIdx) |-> A[rIdx[q]]]
-        withRole == SelectSeq(ordered, LAMBDA i : A[i].role # <<>>)
+        withRole == SelectSeq(ordered, LAMBDA i : A[i].role.t # "m")
         usesPd == \E j \in 1..Len(B.content) : B.content[j].pd
         nSchema == IF usesPd THEN 2 ELSE 1
         schema == << [k |-> "loop", tags |-> <<Tg.conform_name, Tg.conform_version, Tg.conform_location>>,
                       vals |-> [c \in 1..(3 * nSchema) |-> XCell]] >>
         audit == <<Pair(Tg.audit_date, XCell), Pair(Tg.audit_method, XCell)>>
-                 \o (IF Len(B.reducers) = 1 THEN <<Pair(Tg.reduction, SCell(B.reducers[1]))>> ELSE <<>>)
+                 \o (IF Len(B.reducers) = 1 THEN <<Pair(Tg.reduction, B.reducers[1])>> ELSE <<>>)
         reducers == IF Len(B.reducers) > 1
                     THEN << [k |-> "loop", tags |-> <<Tg.reduction>>,
-                             vals |-> [c \in 1..Len(B.reducers) |-> SCell(B.reducers[c])]] >>
+                             vals |-> B.reducers] >>
                     ELSE <<>>
         roles == IF withRole = <<>> THEN <<>>
                  ELSE << [k |-> "loop", tags |-> <<Tg.role_id, Tg.role_role>>,
                           vals |-> [c \in 1..(2 * Len(withRole)) |->
                                       LET i == withRole[((c - 1) \div 2) + 1]
-                                      IN IF c % 2 = 1 THEN ICell(pos(i)) ELSE SCell(A[i].role)]] >>
+                                      IN IF c % 2 = 1 THEN ICell(pos(i)) ELSE A[i].role]] >>
     IN schema \o audit \o reducers
        \o AuthorItems(contact, [q \in 1..Len(cIdx) |-> pos(cIdx[q])], Tg.contact_name, Tg.contact_email,
                       Tg.contact_address, Tg.contact_orcid, Tg.contact_id)
@@ -246,8 +245,8 @@ BeamlineEntries(c) ==
                     [] c.source = "spallation" -> <<P(Tg.device, SCell(Wd.spallation))>>
                     [] c.source = "reactor" -> <<P(Tg.device, SCell(Wd.nuclear))>>
                     [] OTHER -> <<>>
-    IN probe \o <<P(Tg.beamline, SCell(c.name))>>
-       \o (IF c.hasfac THEN <<P(Tg.facility, SCell(c.facility))>> ELSE <<>>) \o device
+    IN probe \o <<P(Tg.beamline, c.name)>>
+       \o (IF c.hasfac THEN <<P(Tg.facility, c.facility)>> ELSE <<>>) \o device
 
 (* reduced powder data: point id, coordinate (+ su), intensity (+ su); c.cells = the     *)
 (* supplied numbers row by row without the point id                                     *)
